@@ -86,7 +86,7 @@ def plan(tier):
     return {'shards': 16, 'budget_s': 900}
 
 
-SIZES = {'quick': dict(n5=8, n2=14, rand=20000), 'thorough': dict(n5=10, n2=14, rand=400000)}
+SIZES = {'quick': dict(n5=8, n2=14, n3=10, rand=20000), 'thorough': dict(n5=10, n2=14, n3=13, rand=400000)}
 
 
 def run(ctx):
@@ -109,6 +109,13 @@ def run(ctx):
                 if idx % ctx.nshards != ctx.shard:
                     continue
                 check_text(ctx, ''.join(tup), 'enum2(%s)<=%d' % (alpha, sz['n2']))
+    # both delimiter characters, no spaces or punctuation: long mixed runs and deep nesting
+    for n in range(0, sz['n3'] + 1):
+        for tup in itertools.product('a*_', repeat=n):
+            idx += 1
+            if idx % ctx.nshards != ctx.shard:
+                continue
+            check_text(ctx, ''.join(tup), 'enum3(a*_)<=%d' % sz['n3'])
     rng = ctx.rng
     for k in range(sz['rand'] // ctx.nshards):
         if ctx.out_of_time():
@@ -136,12 +143,12 @@ def finalize(m, tier):
     if mv.get('spec examples reproduced', 0) < 90:
         inconclusive.append('model validation covered only %d spec examples' % mv.get('spec examples reproduced', 0))
     space5 = sum(5 ** n for n in range(sz['n5'] + 1))
-    space2 = 2 * sum(2 ** n for n in range(sz['n2'] + 1))
+    space2 = 2 * sum(2 ** n for n in range(sz['n2'] + 1)) + sum(3 ** n for n in range(sz['n3'] + 1))
     nontriv = sum(v for k, v in m.c('nontrivial').items() if k != 'random') + m.n('nontrivial-random')
     return {
         'distinct_nontrivial': nontriv,
         'rule': 'exhaustive: every string over {a, space, *, _, .} up to length %d (%d strings) and over {a,*} and {a,_} up to '
-                'length %d (%d strings), each distinct by construction; plus random strings up to length 40 over letters, digits, '
+                'length %d and {a,*,_} up to 10/13 (%d strings), each distinct by construction; plus random strings up to length 40 over letters, digits, '
                 'inert ASCII punctuation, Unicode punctuation and Zs spaces. Each is rendered as heading content by the real parser '
                 'and compared with the reference delimiter algorithm. non-trivial = the reference algorithm forms at least one '
                 '<em>/<strong> (enumerated strings are distinct by construction; random ones are de-duplicated by hash)'
